@@ -179,7 +179,7 @@ class RngModel:
     """numpy Generator: every draw is a fresh symbol; its law is recorded in the ghost trace"""
 
     is_rng = True
-    vc_attrs = ("normal", "random", "integers", "uniform", "exponential", "shuffle", "choice", "permutation")
+    vc_attrs = ("normal", "standard_normal", "random", "integers", "uniform", "exponential", "shuffle", "choice", "permutation")
 
     def __init__(self, name="rng"):
         self.name = name
@@ -202,7 +202,16 @@ class RngModel:
         f = z3.Function(stem, z3.IntSort(), z3.RealSort())
         xi = Tensor((n,), lambda i: Sym(f(S.z(i))))
         c.trace.append(("draw", "normal_vec", xi, loc, scale))
+        if isinstance(loc, (int, float)) and isinstance(scale, (int, float)) and loc == 0 and scale == 1:
+            return xi
         return Tensor.broadcast(Tensor.broadcast(xi, scale, S.mul), loc, S.add)
+
+    def standard_normal(self, size=None):
+        if isinstance(size, (tuple, list)):
+            if len(size) != 1:
+                raise Unsupported("rng.standard_normal with a multi-dimensional size")
+            size = size[0]
+        return self.normal(0.0, 1.0, size)
 
     def random(self, size=None):
         c = ctx()
